@@ -328,9 +328,31 @@ class Sym:
         if isinstance(o, (int, float, Fr, np.integer, np.floating)) and not isinstance(o, bool):
             return s * (1 / Fr(o) if not isinstance(o, (float, np.floating)) else 1 / Fr(float(o)))
         try:
-            return s * J(o).inv()
+            o = J(o)
         except TypeError:
             return NotImplemented
+        c0 = z3.simplify(o.c0)
+        if is_val(c0) and val(c0) == 0 and o.co:
+            return s._div_common_monomial(o)
+        return s * o.inv()
+
+    def _div_common_monomial(s, o):
+        """s / o for a divisor without constant term: the common monomial T^m of the divisor
+        (and of the dividend, else ZeroDivisionError) is cancelled. Coefficients of the quotient
+        above order maxdeg - m would need coefficients of the operands beyond the truncation, so
+        the quotient is cut there: callers must run with |m| spare orders."""
+        keys = [k for k, v in o.co.items() if not is0(z3.simplify(v))]
+        m = tuple(min(k[i] for k in keys) for i in range(len(C.zero)))
+        if m not in keys or sum(m) == 0:
+            raise ZeroDivisionError('division by a series with zero constant term')
+        if any(any(k[i] < m[i] for i in range(len(m))) for k, v in s.co.items() if not is0(z3.simplify(v))):
+            raise ZeroDivisionError('division by a series with zero constant term (dividend not divisible by its leading monomial)')
+        sh = lambda k: tuple(k[i] - m[i] for i in range(len(m)))
+        cut = lambda k: all(k[i] <= C.maxdeg[i] - m[i] for i in range(len(m))) and (C.total is None or sum(k) <= C.total - sum(m))
+        num = Sym({sh(k): v for k, v in s.co.items() if not is0(z3.simplify(v))})
+        den = Sym({sh(k): v for k, v in o.co.items() if not is0(z3.simplify(v))})
+        q = num * den.inv()
+        return Sym({k: v for k, v in q.co.items() if cut(k)})
 
     def __rtruediv__(s, o):
         if isinstance(o, np.ndarray):
@@ -399,6 +421,8 @@ class Sym:
         raise NotImplementedError('power %r' % (p,))
 
     def __abs__(s):
+        if getattr(C, 'abs_mode', 'branch') == 'sqrt' and s.isconst() and not is_val(z3.simplify(s.c0)):
+            return (s * s).sqrt()       # |x| = the non-negative root of x^2: no fork
         return s if s >= 0 else -s
 
     # ---- trigonometry: relaxed to algebra ---------------------------------------------
@@ -480,6 +504,16 @@ class Sym:
         cond = {'gt': d > 0, 'lt': d < 0, 'ge': d >= 0, 'le': d <= 0, 'eq': d == 0, 'ne': d != 0}[op]
         ex = paths.CUR
         if ex is None or not getattr(ex, 'active', False):
+            # no executor to fork: the comparison is still decided if the constraint set implies
+            # one outcome (e.g. a guard `sin(a) > 1`)
+            for outcome, neg in ((True, z3.Not(cond)), (False, cond)):
+                sv = z3.Solver()
+                sv.set('timeout', 3000)
+                sv.add(C.dom)
+                sv.add(C.cons)
+                sv.add(neg)
+                if sv.check() == z3.unsat:
+                    return outcome
             raise SymbolicBranch('comparison on a symbolic value outside a path executor: %s' % cond)
         return ex.decide(cond)
 
@@ -723,24 +757,28 @@ def _match_angle(y0, x0, timeout=3000):
         return None
     ex = paths.CUR
     pc = list(ex.pc) if ex is not None and getattr(ex, 'active', False) else []
-    for (a, b, arg) in list(C.trig.values()):
-        cross = z3.simplify(y0 * b - x0 * a, som=True)
-        syntactic = is0(cross)
-        if not syntactic and len(C.cons) > 40:
-            continue            # large contexts: only syntactic parallelism is tried
-        q = [x0 * b + y0 * a <= 0] if syntactic else [z3.Or(cross != 0, x0 * b + y0 * a <= 0)]
-        allc = C.cons + C.dom + pc
-        qv = set()
-        for t in q:
-            _vars_of(t, qv)
-        direct = [c for c in allc if _vars_of(c) <= qv | {'deg'}]
-        for cs in (direct, cone(q, allc)):
-            s = z3.Solver()
-            s.set('timeout', timeout)
-            s.add(cs)
-            s.add(q)
-            if s.check() == z3.unsat:
-                return arg
+    allc = C.cons + C.dom + pc
+    for mirror in (False, True):
+        for (a, b, arg) in list(C.trig.values()):
+            if mirror:
+                a = -a              # atan2(-y, x) = -atan2(y, x) away from the cut (y = 0, x < 0)
+            cross = z3.simplify(y0 * b - x0 * a, som=True)
+            syntactic = is0(cross)
+            if not syntactic and len(C.cons) > 40:
+                continue            # large contexts: only syntactic parallelism is tried
+            bad = [x0 * b + y0 * a <= 0] + ([] if syntactic else [cross != 0]) + ([z3.And(y0 == 0, x0 < 0)] if mirror else [])
+            q = [z3.Or(bad)] if len(bad) > 1 else bad
+            qv = set()
+            for t in q:
+                _vars_of(t, qv)
+            direct = [c for c in allc if _vars_of(c) <= qv | {'deg'}]
+            for cs in (direct, cone(q, allc)):
+                s = z3.Solver()
+                s.set('timeout', timeout)
+                s.add(cs)
+                s.add(q)
+                if s.check() == z3.unsat:
+                    return -arg if mirror else arg
     return None
 
 
@@ -789,9 +827,9 @@ def atan2(y, x, match=True):
     return res
 
 
-def arcsin(x):
+def arcsin(x, match=False):
     x = J(x)
-    return atan2(x, (1 - x * x).sqrt(), match=False)
+    return atan2(x, (1 - x * x).sqrt(), match=match)
 
 
 def arccos(x):
@@ -822,11 +860,23 @@ class _Linalg:
         from . import symlinalg
         return symlinalg.solve(SymNP.asarray(symnp, a), SymNP.asarray(symnp, b))
 
-    def norm(self, a, axis=None):
+    def norm(self, a, ord=None, axis=None):
         a = symnp.asarray(a)
-        if a.ndim == 1:
+        if a.ndim == 1 and ord in (None, 2):
             return J(sum(x * x for x in a)).sqrt()
-        raise NotImplementedError('norm of ndim %d' % a.ndim)
+        if a.ndim == 2 and ord in (1, np.inf):
+            # maximum absolute column (row) sum; comparisons go to the path executor
+            b = a if ord == 1 else a.T
+            best = None
+            for j in range(b.shape[1]):
+                tot = J(0)
+                for i in range(b.shape[0]):
+                    tot = tot + abs(J(b[i, j]))
+                best = tot if best is None or tot > best else best
+            return best
+        if a.ndim == 2 and ord in (None, 'fro'):
+            return J(sum(J(x) * J(x) for x in a.flat)).sqrt()
+        raise NotImplementedError('norm of ndim %d, ord %r' % (a.ndim, ord))
 
     def det(self, a):
         from . import symlinalg
@@ -960,6 +1010,8 @@ class SymNP:
         if isinstance(a, Sym) and isinstance(b, Sym):
             return fn(a, b)
         a, b = np.broadcast_arrays(np.asarray(a, dtype=object), np.asarray(b, dtype=object))
+        if a.ndim == 0:
+            return fn(a[()], b[()])
         out = np.empty(a.shape, dtype=object)
         for idx in np.ndindex(a.shape):
             out[idx] = fn(a[idx], b[idx])
@@ -968,17 +1020,35 @@ class SymNP:
     def arctan2(self, y, x): return self._b(atan2, y, x)
     def hypot(self, x, y): return self._b(lambda p, q: (J(p) * J(p) + J(q) * J(q)).sqrt(), x, y)
 
-    def arcsin(self, a):
+    def _u1(self, fn, a):
         if isinstance(a, Sym) or _isnum(a):
-            return arcsin(a)
-        a = self.asarray(a)
-        return O([arcsin(v) for v in a])
+            return fn(a)
+        a = np.asarray(self.asarray(a), dtype=object)
+        if a.ndim == 0:
+            return fn(a[()])
+        out = np.empty(a.shape, dtype=object)
+        for idx in np.ndindex(a.shape):
+            out[idx] = fn(a[idx])
+        return out
+
+    def arctan(self, a):
+        return self._u1(lambda v: atan2(v, 1), a)
+
+    def clip(self, a, lo, hi, **kw):
+        def one(v):
+            v = J(v)
+            if lo is not None and v < lo:
+                return J(lo)
+            if hi is not None and v > hi:
+                return J(hi)
+            return v
+        return self._u1(one, a)
+
+    def arcsin(self, a):
+        return self._u1(lambda v: arcsin(v, match=getattr(C, 'match_inverse_trig', False)), a)
 
     def arccos(self, a):
-        if isinstance(a, Sym) or _isnum(a):
-            return arccos(a)
-        a = self.asarray(a)
-        return O([arccos(v) for v in a])
+        return self._u1(arccos, a)
 
     def dot(self, a, b, out=None):
         r = np.dot(np.asarray(a, dtype=object), np.asarray(b, dtype=object))
